@@ -298,15 +298,20 @@ fn stress(args: &Args) {
     out::count("stress_events", total_ops as i128);
 }
 
-/// Sequential histories over several handles cloned from one GuestMemoryAtomic.
+/// Sequential histories over several handles. Handles are clones of one another, are re-pointed
+/// with `clone_from`, or belong to further independent replaceable memories ("cells") created
+/// from an owned snapshot (so that two cells can hold the very same `Arc<Map>` for a while).
+/// Model: the current generation of each cell, and the cell each handle is bound to.
 fn sequential(args: &Args) {
     for case in args.cases(500) {
         let mut r = Rng::new(args.seed(), "c11-seq", case);
         let same = case % 2 == 1;
         let (m, w0) = initial_map(same);
         let root = GuestMemoryAtomic::new(m);
-        let handles: Vec<GuestMemoryAtomic<Map>> = (0..3).map(|_| root.clone()).collect();
-        let mut cur = 0u64;
+        let mut handles: Vec<(GuestMemoryAtomic<Map>, usize)> = (0..3).map(|_| (root.clone(), 0usize)).collect();
+        drop(root);
+        let mut cells: Vec<u64> = vec![0];
+        let mut next_gen = 0u64;
         let mut weaks: Vec<(u64, Weak<Reg>)> = vec![(0, w0)];
         // held snapshots: (generation at snapshot time, kind)
         enum Held {
@@ -317,14 +322,16 @@ fn sequential(args: &Args) {
         let steps = r.range(10, 60);
         let mut trace: Vec<String> = vec![];
         for _ in 0..steps {
-            let h = &handles[r.usize_below(handles.len())];
-            match r.below(10) {
+            let hi = r.usize_below(handles.len());
+            let cell = handles[hi].1;
+            let cur = cells[cell];
+            match r.below(14) {
                 0..=2 => {
-                    let s = h.memory();
+                    let s = handles[hi].0.memory();
                     match observe(&s, same) {
                         Ok(g) if g == cur => {}
                         other => {
-                            v("seq/snapshot-is-not-the-current-map", jobj! {"current" => cur, "saw" => J::dbg(&other), "trace" => trace.clone()});
+                            v("seq/snapshot-is-not-the-current-map", jobj! {"current" => cur, "cell" => cell, "saw" => J::dbg(&other), "trace" => trace.clone()});
                             return;
                         }
                     }
@@ -332,7 +339,7 @@ fn sequential(args: &Args) {
                     trace.push(format!("snapshot@{}", cur));
                 }
                 3 => {
-                    let s = h.memory().into_inner();
+                    let s = handles[hi].0.memory().into_inner();
                     held.push((cur, Held::Owned(s)));
                     trace.push(format!("owned-snapshot@{}", cur));
                 }
@@ -345,23 +352,52 @@ fn sequential(args: &Args) {
                     }
                 }
                 5..=7 => {
+                    let h = &handles[hi].0;
                     let guard = h.lock().unwrap();
                     let curm = h.memory();
-                    let t = tag_region(cur + 1, same);
-                    weaks.push((cur + 1, Arc::downgrade(&t)));
+                    next_gen += 1;
+                    let t = tag_region(next_gen, same);
+                    weaks.push((next_gen, Arc::downgrade(&t)));
                     let (without, old) = curm.remove_region(GuestAddress(taddr(cur, same)), RSZ as u64).unwrap();
                     let next = without.insert_region(t).unwrap();
                     drop(old);
                     drop(curm);
                     guard.replace(next);
-                    cur += 1;
-                    trace.push(format!("replace->{}", cur));
+                    cells[cell] = next_gen;
+                    trace.push(format!("replace->{}", next_gen));
                 }
                 8 => {
                     // lock without replacing: must not change anything
-                    let g = h.lock().unwrap();
+                    let g = handles[hi].0.lock().unwrap();
                     drop(g);
                     trace.push("lock+unlock".into());
+                }
+                9 => {
+                    if handles.len() < 8 {
+                        let c = handles[hi].0.clone();
+                        handles.push((c, cell));
+                        trace.push("clone-handle".into());
+                    }
+                }
+                10 => {
+                    // an independent replaceable memory holding the very same Arc<Map>
+                    if cells.len() < 4 && handles.len() < 8 {
+                        let arc = handles[hi].0.memory().into_inner();
+                        let fresh: GuestMemoryAtomic<Map> = GuestMemoryAtomic::from(arc);
+                        cells.push(cur);
+                        handles.push((fresh, cells.len() - 1));
+                        trace.push(format!("new-cell-from-owned-snapshot@{}", cur));
+                    }
+                }
+                11 | 12 => {
+                    // re-point one handle at another's memory
+                    let src = r.usize_below(handles.len());
+                    if src != hi {
+                        let s = handles[src].0.clone();
+                        handles[hi].0.clone_from(&s);
+                        handles[hi].1 = handles[src].1;
+                        trace.push(format!("clone_from(cell{}->cell{})", cell, handles[src].1));
+                    }
                 }
                 _ => {
                     if !held.is_empty() {
@@ -372,6 +408,14 @@ fn sequential(args: &Args) {
                 }
             }
             out::eval(1);
+            // every handle shows the current map of the cell it is bound to
+            for (k, (h, c)) in handles.iter().enumerate() {
+                let o = observe(&h.memory(), same);
+                if o != Ok(cells[*c]) {
+                    v("seq/handle-does-not-show-its-memory's-current-map", jobj! {"handle" => k, "cell" => *c, "expected" => cells[*c], "saw" => J::dbg(&o), "trace" => trace.clone()});
+                    return;
+                }
+            }
             // every held snapshot still shows its generation
             for (g, hd) in &held {
                 let o = match hd {
@@ -383,15 +427,16 @@ fn sequential(args: &Args) {
                     return;
                 }
             }
-            // lifetime: generation alive iff current or held
+            // lifetime: a generation is alive iff it is the current map of a cell that still has a
+            // handle, or a snapshot of it is held
             for (g, w) in &weaks {
-                let want = *g == cur || held.iter().any(|(hg, _)| hg == g);
+                let want = handles.iter().any(|(_, c)| cells[*c] == *g) || held.iter().any(|(hg, _)| hg == g);
                 if w.upgrade().is_some() != want {
                     v("seq/replaced-map-lifetime", jobj! {"generation" => *g, "alive" => w.upgrade().is_some(), "expected_alive" => want, "trace" => trace.clone()});
                     return;
                 }
             }
-            out::key(&format!("seq{}|{}|held{}", if same { "-samelayout" } else { "" }, trace.last().map(|s| s.split('@').next().unwrap_or("").split("->").next().unwrap_or("")).unwrap_or(""), held.len().min(4)), true);
+            out::key(&format!("seq{}|{}|held{}|cells{}", if same { "-samelayout" } else { "" }, trace.last().map(|s| s.split('@').next().unwrap_or("").split("->").next().unwrap_or("").split('(').next().unwrap_or("")).unwrap_or(""), held.len().min(4), cells.len().min(3)), true);
         }
         if out::want_sample() && case % 50 == 0 {
             out::sample(jobj! {"mode" => "seq", "trace" => trace.clone()});
